@@ -2864,9 +2864,7 @@ impl Machine {
         let chs = self.machine_st.registers[2];
 
         let string = match Number::try_from((n, &self.machine_st.arena.f64_tbl)) {
-            Ok(Number::Float(OrderedFloat(n))) => {
-                format!("{n:<20?}")
-            }
+            Ok(Number::Float(OrderedFloat(n))) => fmt_float(n),
             Ok(Number::Fixnum(n)) => n.get_num().to_string(),
             Ok(Number::Integer(n)) => n.to_string(),
             Ok(Number::Rational(r)) => {
